@@ -41,6 +41,7 @@ Apply(o, ev, fr) ==
     [] ev.op = "Removed" -> O!ORemoved(o, ev.d, ev.k)
     [] ev.op = "Purged"  -> O!OPurged(o, ev.d, ev.k, ev.ok)
     [] ev.op = "Loaded"  -> O!OLoaded(o, ev.r)
+    [] ev.op = "Persisted" -> O!OPersisted(o, ev.k, ev.v, ev.ok)
     [] ev.op = "PurgeCall"   -> O!OPurgeCall(o, Range(ev.ds), ev.k)
     [] ev.op = "PurgeReturn" -> O!OPurgeReturn(o, Range(ev.ds), ev.k)
     [] ev.op = "Evicted" -> O!OEvicted(o, ev.d, ev.k)
@@ -64,6 +65,7 @@ I_SingleFlight      == O!P_SingleFlight(obs)
 I_BurstCostsOne     == O!P_BurstCostsOne(obs)
 I_NoEarlyRelease    == O!P_NoEarlyRelease(obs)
 I_NoUntimelyPublish == O!P_NoUntimelyPublish(obs)
+I_StoreMatchesKey   == O!P_StoreMatchesKey(obs)
 I_HitServed         == O!P_HitServed(obs)
 I_LabelTruth        == O!P_LabelTruth(obs)
 I_OnlyStoredIsShared == O!P_OnlyStoredIsShared(obs)
